@@ -68,6 +68,9 @@ def chain_oracle(case, obs, aspects):
     got = obs['tasks']
     if 'tasks' in aspects and set(got) != set(exp):
         return f'tasks {sorted(got)} differ from the declared ones {sorted(exp)}'
+    if 'keys' in aspects and set(got) != set(exp):
+        # the name of a task is the directory of its results and part of the key text of its dependants
+        return f'the tasks are named {sorted(got)}; by the naming rule of the pinned release they are {sorted(exp)}'
     if set(got) != set(exp):
         return None
     by_id = {c['id']: c for c in case['classes']}
@@ -169,6 +172,10 @@ class ChainBuild(Suite):
             dict(classes=[dict(K(0, 'Ga', group='g'), name='a'), dict(K(1, 'Pa'), name='a'),
                           dict(K(2, 'Dep', meta_inputs=[{'name': 'g:a'}, {'name': 'a'}]), name='dep')],
                  files={'p.json': {'tasks': ['@M.*']}}, base={'name': 'm', 'data': {'uses': 'p.json as n'}}, context=None),
+            # names: an explicit Meta.name is used verbatim (also when it ends in _task), a class name loses the suffix
+            dict(classes=[dict(K(0, 'Prep'), name='prepare_task'), K(1, 'CleanTask'), dict(K(2, 'Other', group='g'), name='_task'),
+                          dict(K(3, 'Dep', meta_inputs=[{'cls': 0}, {'cls': 1}, {'cls': 2}]), name='dep')],
+                 files={}, base={'name': 'm', 'data': {'tasks': ['@M.*']}}, context=None),
             # an import string names exactly one class, also when another class of the module has that name as a prefix
             dict(classes=[K(0, 'Ab'), K(1, 'A'), K(2, 'Abc')], files={}, base={'name': 'm', 'data': {'tasks': ['@M.A']}}, context=None),
             dict(classes=[K(0, 'Ab'), K(1, 'A'), K(2, 'Abc')], files={},
